@@ -237,6 +237,12 @@ class Engine:
             if v is not self and imm(v) and not isinstance(v, tuple):
                 if not rebound:
                     out = C(v)
+            elif v is self and not rebound and isinstance(vals[0], (ast.BinOp, ast.UnaryOp)):
+                # arithmetic on other constants (HEX_KEY_LENGTH = 2 * KEY_LENGTH): folded by the walker
+                cache[key] = None
+                t = self.static_term(m.__dict__.get("const_origin", {}).get(name, m), vals[0])
+                if t is not None and len(t) == 3 and t[0] == "const" and isinstance(t[2], (int, str, bytes)) and not isinstance(t[2], bool):
+                    out = t
             elif v is self and not rebound and isinstance(vals[0], (ast.Call, ast.Tuple, ast.Lambda)):
                 # an immutable record built once at import time: a NamedTuple instance, a
                 # functools.partial, an operator.itemgetter - the value itself is used
